@@ -1283,9 +1283,56 @@ func (e *Enc) enterBlock(fr *Frame, b *ssa.BasicBlock, in []edgeIn) *State {
 			}
 		}
 	}
+	// counter loops written by hand (for i := c; i < n; i += k): the counter never drops below its
+	// initial value. This is an inductive fact of the loop itself (i < n at the top of every iteration
+	// keeps i+k from wrapping for k == 1), so it needs no declared invariant -- without it the bounds
+	// obligation of s[i] fails for a loop that is equivalent to `for i := range s`.
+	for _, instr := range b.Instrs {
+		phi, ok := instr.(*ssa.Phi)
+		if !ok {
+			break
+		}
+		if len(phi.Edges) != 2 || phi.Comment == "rangeindex" {
+			continue
+		}
+		bt, isB := phi.Type().Underlying().(*types.Basic)
+		if !isB || bt.Info()&types.IsInteger == 0 || bt.Info()&types.IsUnsigned != 0 {
+			continue
+		}
+		guarded := false
+		for _, in2 := range b.Instrs {
+			if cmp, ok := in2.(*ssa.BinOp); ok && cmp.Op == token.LSS && cmp.X == ssa.Value(phi) {
+				guarded = true
+			}
+		}
+		if !guarded {
+			continue
+		}
+		for k := 0; k < 2; k++ {
+			c0, isC := phi.Edges[k].(*ssa.Const)
+			step, isS := phi.Edges[1-k].(*ssa.BinOp)
+			if !isC || !isS || c0.Value == nil || step.Op != token.ADD || step.X != ssa.Value(phi) {
+				continue
+			}
+			one, isOne := step.Y.(*ssa.Const)
+			if !isOne || one.Value == nil || one.Value.ExactString() != "1" {
+				continue
+			}
+			if nv, have := fr.vals[phi]; have {
+				e.assume(st, fmt.Sprintf("(>= %s %s)", nv.term(), smtInt(c0.Value.ExactString())))
+			}
+		}
+	}
 	// assume invariants
 	e.assumeLoopInv(fr, li, st)
 	return st
+}
+
+func smtInt(s string) string {
+	if strings.HasPrefix(s, "-") {
+		return "(- " + s[1:] + ")"
+	}
+	return s
 }
 
 func predIndex(b, from *ssa.BasicBlock) int {
